@@ -55,7 +55,8 @@ VARIABLES now,
           sfails,     \* failed attempts of the initial row write
           faults,     \* injected failures so far
           inbox,      \* ticks accepted by send_event and not yet reduced by a loop
-          sendpc      \* send_event under the reload lock: "none" | "lock" (lock held) | "cleared" (idle_since cleared)
+          sendpc      \* a send in progress: "none" | "checked" (the service found the handler running; lock not yet
+                      \* taken) | "lock" (reload lock held) | "cleared" (idle_since cleared)
 
 vars == <<now, proc, row, nlog, logEnded, loops, gen, active, pactive, timers, eng, tw, start, sfails, faults, inbox, sendpc>>
 
@@ -68,7 +69,7 @@ NoRow == [exists |-> FALSE, status |-> "", idle |-> 0, result |-> FALSE]
 Eng0 == [work |-> TRUE, timers |-> FALSE, ended |-> "none", phase |-> "wait", cause |-> "work", imail |-> 0, chk |-> FALSE]
 NoTw == [on |-> FALSE, status |-> "", fails |-> 0]
 Live == loops # {}
-LockFree == sendpc = "none"          \* the per-run reload lock (KeyedLock) is not held
+LockFree == sendpc \in {"none", "checked"}          \* the per-run reload lock (KeyedLock) is not held
 \* (a released loop is a cancelled task: loops keeps it until LoopExit, but it never executes again -- every loop action
 \*  below requires `active`; a loop that ended by itself keeps active = TRUE, as _active_run_ids does)
 
@@ -188,8 +189,16 @@ ReleaseFire(d) ==
   /\ UNCHANGED <<now, proc, row, nlog, logEnded, loops, gen, pactive, eng, tw, start, sfails, faults, inbox, sendpc>>
 
 (* IdleReleaseExternalRunAdapter.send_event: async with reload_lock: [reload] ; idle_since := None ; forward *)
-SendBegin ==         \* _service.send_event / cancel_handler refuse a handler whose stored status is terminal
-  /\ proc = "up" /\ LockFree /\ row.exists /\ row.status = "running" /\ sendpc' = "lock"
+(* _service.send_event / cancel_handler: resolve_handler refuses a handler whose stored status is terminal ...          *)
+SendCheck ==
+  /\ proc = "up" /\ sendpc = "none" /\ row.exists /\ row.status = "running" /\ sendpc' = "checked"
+  /\ UNCHANGED <<now, proc, row, nlog, logEnded, loops, gen, active, pactive, timers, eng, tw, start, sfails, faults, inbox>>
+(* ... and only then, some awaits later, the adapter takes the reload lock: the run may have ended in between           *)
+SendLock ==
+  /\ proc = "up" /\ sendpc = "checked" /\ sendpc' = "lock"
+  /\ UNCHANGED <<now, proc, row, nlog, logEnded, loops, gen, active, pactive, timers, eng, tw, start, sfails, faults, inbox>>
+SendBegin ==         \* both at once (what a recorded send_begin line without an earlier check line stands for)
+  /\ proc = "up" /\ sendpc = "none" /\ row.exists /\ row.status = "running" /\ sendpc' = "lock"
   /\ UNCHANGED <<now, proc, row, nlog, logEnded, loops, gen, active, pactive, timers, eng, tw, start, sfails, faults, inbox>>
 (* _ensure_active_run_locked: context_from_ticks + workflow.run(ctx) *)
 SendReload ==
@@ -249,7 +258,7 @@ Next ==
   \/ InternalSend \/ (\E w, t \in BOOLEAN, c \in Causes : Tick(w, t, c)) \/ (\E e \in BOOLEAN : Persist(e))
   \/ (\E q, c, tm \in BOOLEAN : TickDone(q, c, tm)) \/ PublishIdle \/ (\E k \in {"stop", "failed", "cancelled", "timedout"} : PublishTerminal(k))
   \/ TermWriteOk \/ TermWriteFail \/ (\E g \in loops : LoopExit(g))
-  \/ CancelDirect \/ (\E d \in timers : ReleaseFire(d)) \/ SendBegin \/ SendReload \/ SendClear \/ SendForward
+  \/ CancelDirect \/ (\E d \in timers : ReleaseFire(d)) \/ SendCheck \/ SendLock \/ SendReload \/ SendClear \/ SendForward
   \/ Crash \/ Restart \/ (\E t \in (now + 1)..MaxT : Advance(t))
 Spec == Init /\ [][Next]_vars
 
